@@ -452,3 +452,175 @@ func (p *prover) nilErrorFacts(bo *ssa.BinOp, truth bool) []dfact {
 	}
 	return out
 }
+
+// ---------- facts for methods used as bound method values (callbacks) ----------
+
+// fieldChain decodes addr as a chain of field selections from a root value ("" if it is none).
+func fieldChain(addr ssa.Value) (root ssa.Value, chain string) {
+	for {
+		fa, ok := addr.(*ssa.FieldAddr)
+		if !ok {
+			return addr, chain
+		}
+		_, sn, f, ok := fieldAddr(fa)
+		if !ok {
+			return nil, ""
+		}
+		chain = sn + "." + f + "/" + chain
+		addr = fa.X
+	}
+}
+
+// callbackFacts: a method that the module only ever uses as a bound method value (x.M handed to a function that
+// calls it back, e.g. the parse-after-decrypt step of the OpenVPN messages) starts with the receiver in the state it
+// had where the value was made, as far as nothing in between can write it. For every slice field of the receiver:
+// the constant bounds of its length that hold at ALL places where x.M is made hold for every load of that field in
+// M, provided neither M, nor the function making the value, nor anything that function calls stores to the field.
+func (p *prover) callbackFacts() {
+	fn := p.fn
+	if p.c == nil || p.cbDone {
+		return
+	}
+	p.cbDone = true
+	if fn.Signature.Recv() == nil || len(fn.Params) == 0 || fn.Parent() != nil || p.c.ipDepth > 2 {
+		return
+	}
+	if sites, escapes := p.c.callSitesOf(fn); len(sites) != 0 || escapes {
+		return // called directly as well: those callers owe nothing
+	}
+	var made []*ssa.MakeClosure
+	for _, g := range p.c.Funcs {
+		for _, b := range g.Blocks {
+			for _, in := range b.Instrs {
+				switch x := in.(type) {
+				case *ssa.MakeClosure:
+					w, _ := x.Fn.(*ssa.Function)
+					if w != nil && w.Synthetic != "" && w.Pkg == nil && w.Object() != nil && w.Object() == fn.Object() && len(x.Bindings) == 1 {
+						made = append(made, x)
+					}
+				case ssa.CallInstruction:
+					if cm := x.Common(); cm.IsInvoke() && cm.Method.Name() == fn.Name() {
+						return // may be reached through an interface
+					}
+				}
+			}
+		}
+	}
+	if len(made) == 0 {
+		return
+	}
+	// the receiver's slice fields loaded in M
+	type loadT struct {
+		ld    *ssa.UnOp
+		chain string
+	}
+	var mine []loadT
+	for _, b := range fn.Blocks {
+		for _, in := range b.Instrs {
+			if ld, ok := in.(*ssa.UnOp); ok && ld.Op == token.MUL {
+				if _, isSlice := ld.Type().Underlying().(*types.Slice); !isSlice {
+					continue
+				}
+				if root, chain := fieldChain(ld.X); root == ssa.Value(fn.Params[0]) && chain != "" {
+					mine = append(mine, loadT{ld, chain})
+				}
+			}
+		}
+	}
+	if len(mine) == 0 {
+		return
+	}
+	storesField := func(g *ssa.Function, chain string) bool {
+		last := strings.Split(strings.TrimSuffix(chain, "/"), "/")
+		snf := last[len(last)-1]
+		for _, b := range g.Blocks {
+			for _, in := range b.Instrs {
+				if st, ok := in.(*ssa.Store); ok {
+					if _, sn, f, ok := fieldAddr(st.Addr); ok && sn+"."+f == snf {
+						return true
+					}
+				}
+			}
+		}
+		return false
+	}
+	p.c.ipDepth++
+	defer func() { p.c.ipDepth-- }()
+	type bnd struct {
+		lo, hi       int64
+		hasLo, hasHi bool
+	}
+	var acc map[string]bnd
+	for _, mc := range made {
+		F := mc.Parent()
+		pc := p.c.proverFor(F)
+		pc.paramFacts()
+		between := p.c.reach(p.c.callees(F))
+		cur := map[string]bnd{}
+		for _, b := range F.Blocks {
+			for _, in := range b.Instrs {
+				ld, ok := in.(*ssa.UnOp)
+				if !ok || ld.Op != token.MUL || !(b == mc.Block() || b.Dominates(mc.Block())) {
+					continue
+				}
+				root, chain := fieldChain(ld.X)
+				if root != mc.Bindings[0] || chain == "" {
+					continue
+				}
+				if _, isSlice := ld.Type().Underlying().(*types.Slice); !isSlice {
+					continue
+				}
+				safe := !storesField(F, chain) && !storesField(fn, chain)
+				for g := range between {
+					if safe && storesField(g, chain) {
+						safe = false
+					}
+				}
+				if !safe {
+					continue
+				}
+				c0 := cur[chain]
+				if k, ok := pc.boundAt(mc.Block(), pc.lenOf(ld)); ok && (!c0.hasHi || k < c0.hi) {
+					c0.hi, c0.hasHi = k, true
+				}
+				if k, ok := pc.boundAt(mc.Block(), negLin(pc.lenOf(ld))); ok && (!c0.hasLo || -k > c0.lo) {
+					c0.lo, c0.hasLo = -k, true
+				}
+				cur[chain] = c0
+			}
+		}
+		if acc == nil {
+			acc = cur
+			continue
+		}
+		for ch, a := range acc {
+			c0 := cur[ch]
+			a.hasHi = a.hasHi && c0.hasHi
+			a.hasLo = a.hasLo && c0.hasLo
+			if c0.hi > a.hi {
+				a.hi = c0.hi
+			}
+			if c0.lo < a.lo {
+				a.lo = c0.lo
+			}
+			acc[ch] = a
+		}
+	}
+	for _, m := range mine {
+		b0, ok := acc[m.chain]
+		if !ok {
+			continue
+		}
+		l := p.lenOf(m.ld)
+		if !l.ok || l.neg != "" || l.c != 0 || l.pos == "" {
+			continue
+		}
+		why := fmt.Sprintf("holds where the method value %s is made (%d place(s)) and nothing in between writes the field", fn.Name(), len(made))
+		if b0.hasHi {
+			p.add(dfact{l.pos, "", b0.hi, why})
+		}
+		if b0.hasLo {
+			p.add(dfact{"", l.pos, -b0.lo, why})
+		}
+	}
+}
